@@ -185,6 +185,14 @@ struct C03 : Check {
 		// the buffer's own path may be one that did not exist when it was opened
 		bool newfile = r.chance(1, 6);
 		if (newfile) { p.files.clear(); }
+		else if (r.chance(1, 6)) {
+			// the edited path is a symbolic link: the guard is about the file behind it, whose
+			// modification time moves while the link's own does not
+			for (auto &f : p.files) if (f.path == "F") f.path = "T";
+			FileSpec l; l.path = "F"; l.link = "T"; l.mtime = r.chance(1, 2) ? -100 : -300;
+			p.files.push_back(l);
+			p.variant = "seeded/symlink";
+		}
 		if (r.chance(1, 8)) { p.knobs.write_policy = (int) r.range(1, 4); p.knobs.write_n = 1000; }
 		int nw = (int) r.range(1, 3);
 		for (int i = 0; i < nw; i++) {
@@ -249,6 +257,8 @@ struct C03 : Check {
 		expect_dirty = false; last_write_failed = false;
 	}
 
+	static Inode &ino(const std::string &path) { return K.fs[K.real(path)]; }
+
 	static long delta(const std::map<std::string, long> &now, const std::map<std::string, long> &was, const char *k)
 	{
 		auto a = now.find(k), b = was.find(k);
@@ -260,7 +270,11 @@ struct C03 : Check {
 		before = c.text();
 		path_before = c.path();
 		fs_before.clear();
-		for (auto &kv : K.fs) fs_before[kv.first] = {kv.second.data, kv.second.mtime};
+		// a name that is a symbolic link stands for the file behind it (absent when the link dangles)
+		for (auto &kv : K.fs) {
+			auto it = K.fs.find(K.real(kv.first));
+			if (it != K.fs.end() && it->second.link.empty()) fs_before[kv.first] = {it->second.data, it->second.mtime};
+		}
 		fired_before = K.fired; probes_before = K.probes;
 	}
 
@@ -307,7 +321,7 @@ struct C03 : Check {
 			// its own account.  Nothing to assert about messages; track F's state from its bytes.
 			c.count("xa_other_buffer_failed");
 			expect_dirty = !(exists_now && got == want);
-			if (!expect_dirty) { seen_mtime[path] = K.fs[path].mtime; own_known = true; }
+			if (!expect_dirty) { seen_mtime[path] = ino(path).mtime; own_known = true; }
 			return;
 		}
 		// (a) the guard
@@ -327,7 +341,7 @@ struct C03 : Check {
 			if (exited) c.violate("C03/guard/exit-after-refusal", where + ": the write had to be refused (" + why + ") but the editor exited");
 			if (!exists_now || got != fs_before[path].first)
 				c.violate("C03/guard/clobbered", where + ": " + why + ", yet the file was changed: " + first_diff(got, fs_before[path].first));
-			if (K.fs[path].mtime != fs_before[path].second)
+			if (ino(path).mtime != fs_before[path].second)
 				c.violate("C03/guard/mtime-touched", where + ": refused write changed the file's modification time");
 			if (said_ok) c.violate("C03/guard/reported-success", where + ": refused write reported success: " + vis(msg, 80));
 			last_write_failed = true;
@@ -344,7 +358,7 @@ struct C03 : Check {
 				// :xa makes two passes over the buffer; which one failed decides what the editor
 				// recorded.  Resynchronise the model from what is observable instead of guessing.
 				own_known = exists_now;
-				if (exists_now) seen_mtime[path] = K.fs[path].mtime;
+				if (exists_now) seen_mtime[path] = ino(path).mtime;
 				expect_dirty = !(exists_now && got == want);
 			}
 			return;
@@ -356,13 +370,13 @@ struct C03 : Check {
 			if (!exists_now || got != want)
 				c.violate(shorts ? "C03/success/wrong-bytes-after-short-write" : "C03/success/wrong-bytes", where + ": the command reported success but " + path + " is wrong: " + first_diff(got, want));
 			last_write_failed = false;
-			if (whole && path == path_before && !exited) { seen_mtime[path] = K.fs[path].mtime; own_known = true; expect_dirty = false; }
+			if (whole && path == path_before && !exited) { seen_mtime[path] = ino(path).mtime; own_known = true; expect_dirty = false; }
 			if (m.boolean("retry")) c.count("retries_succeeded");
 		} else if (said_failed) {
 			// failure without an injected error and without a guard reason (e.g. a read-only target): legal; nothing to compare
 			c.count("uninjected_failures");
 			last_write_failed = true;
-			if (m.boolean("retry") && hard == 0 && K.knobs.disk_cap < 0 && !(fs_before.count(path) && K.fs.count(path) && K.fs[path].ro)) {
+			if (m.boolean("retry") && hard == 0 && K.knobs.disk_cap < 0 && !(fs_before.count(path) && K.fs.count(K.real(path)) && ino(path).ro)) {
 				c.compared();
 				c.violate("C03/retry/failed", where + ": no fault is active any more, yet the :w! retry failed: " + vis(msg, 80));
 			}
@@ -374,13 +388,13 @@ struct C03 : Check {
 
 	void quiescent(RunCtx &c, int after) override
 	{
-		if (after == -1 && c.plan.meta.boolean("argv_open") && K.fs.count("F")) { seen_mtime["F"] = K.fs["F"].mtime; own_known = true; }
+		if (after == -1 && c.plan.meta.boolean("argv_open") && K.fs.count(K.real("F"))) { seen_mtime["F"] = ino("F").mtime; own_known = true; }
 		if (after >= 0) {
 			const Step &s = c.plan.steps[(size_t) after];
 			std::string k = s.meta.str("k");
 			if (k == "open") {
 				std::string p = s.meta.str("path");
-				if (K.fs.count(p)) { seen_mtime[p] = K.fs[p].mtime; own_known = true; }
+				if (K.fs.count(K.real(p))) { seen_mtime[p] = ino(p).mtime; own_known = true; }
 			}
 			if (k == "edit") expect_dirty = true;
 			if (k == "write") check_write(c, s, false);
